@@ -90,6 +90,16 @@ def gen_scenario(rng: random.Random) -> Dict[str, Any]:
             ops.append({"t": max(0.0, o["t"] - rng.choice([1100.0, 1130.0, 1150.0, 1180.0])), "op": "browse", "host": rng.randrange(nh), "type": tp, "bid": nb + 10})
     if rng.random() < 0.35 and nh > 2:
         ops.append({"t": float(rng.choice([4000, 8000, 13000])), "op": "close", "host": rng.randrange(nh)})
+    # a late browser: started minutes to an hour after the last change, on a host whose cache may still hold the (by then
+    # stale, or expired-and-purged) records from the announcements - fractions of the cached pointer TTL (floor 1125 s)
+    if rng.random() < 0.3:
+        regs = [x for x in ops if x["op"] == "register"]
+        o = rng.choice(regs)
+        eff = max(float(o["spec"].other_ttl), 1125.0) * 1000.0
+        last = max(x["t"] for x in ops)
+        nb += 1
+        ops.append({"t": last + 2000.0 + eff * rng.choice([0.2, 0.45, 0.55, 0.7, 0.8, 0.97, 1.05]), "op": "browse", "host": rng.randrange(nh),
+                    "type": o["spec"].type, "bid": nb + 30, "late": True})
     ops.sort(key=lambda o: o["t"])
     return {"hosts": hosts, "ops": ops, "dup_p": rng.choice([0.0, 0.0, 0.1, 0.2]), "max_delay": 100.0}
 
@@ -217,6 +227,8 @@ def execute(sc: Dict[str, Any], seed: int, drop_index: Optional[int], drop_recei
         out["tx_count"] = sim.net.tx_count
         out["deliveries"] = [{"t": d["t"], "host": d["host"], "fd": d["fd"], "sock": d["sock"], "data": d["data"], "tx": d["tx"]} for d in sim.net.deliveries]
         out["trace_kinds"] = [classify_datagram(e) for e in sim.net.trace]
+        if sc.get("keep_trace"):
+            out["trace"] = list(sim.net.trace)
         out["escapes"] = [e for e in sim.net.escapes if "was destroyed but it is pending" not in str(e.get("message"))]
     out["lookups"] = lookups
     out["versions"] = versions
